@@ -36,6 +36,8 @@ Reasons(r) ==
             \* a panic of the matcher is "no match reported"; it is C02's business when the pattern was cut
             \* from the node (cut-not-matched below) and C11's otherwise
             (IF o.ok /\ ~Legal(PT, T, s, 1, 1) THEN {<<"illegal-match", s>>} ELSE {})
+            \* C04: the reported bindings are consistent with an alignment in which a variable always stands for the same code
+            \cup (IF o.ok /\ Legal(PT, T, s, 1, 1) /\ ~LegalB(PT, T, s, 1, 1, o.single) THEN {<<"same-variable-different-code", s>>} ELSE {})
             \cup (IF o.len >= 0 /\ ~EndOK(T, 1, T[1].s + o.len) THEN {<<"match-len", s>>} ELSE {})
           : i \in 1..5 }
     \cup (IF r.mode = "cut" /\ CutPremise(r)
